@@ -1,1 +1,140 @@
-Theorem placeholder_removed_later : True. Proof. exact I. Qed. Print Assumptions placeholder_removed_later.
+(* C19 - Encryption nonces are never reused.
+   Statements about Model/Handler.v (validated against the real handler by the correspondence run of
+   ./check C19; the harness monitor checks the nonce multiset per decrypting key on the wire).
+   A message nonce is (counter, r): the 4 counter bytes and the interned 8 random bytes.
+   Every theorem is closed by [exact] of a lemma of Proofs/HandlerB_*.v. *)
+From Coq Require Import List NArith Bool.
+From Discv5V Require Import Model.Handler Proofs.HandlerB_Base Proofs.HandlerB_Frame Proofs.HandlerB_Session
+  Proofs.HandlerB_Auth Proofs.HandlerB_Step Proofs.HandlerB_Nonce Proofs.HandlerB_Examples.
+Import ListNotations.
+Local Open Scope N_scope.
+
+(* encrypt_nonce_counter: Session::encrypt_message produces a packet whose nonce is (counter + 1, r) for
+   the drawn r, encrypted under the session's current encryption key with the header as authenticated
+   data; the session returned has counter + 1 and the same keys; the handler state is not touched. *)
+Theorem C19_encrypt_nonce_counter :
+  forall c s na se m,
+  let res := encrypt_message c s na se m in
+  let se' := snd (fst res) in
+  exists r aad,
+    snd res = PMsg (cfg_local c) (s_counter se + 1, r) aad (CEnc (s_enc se) (s_counter se + 1, r) m aad) /\
+    s_counter se' = s_counter se + 1 /\
+    s_enc se' = s_enc se /\ s_dec se' = s_dec se /\ s_old se' = s_old se /\ s_await se' = s_await se /\
+    hs (fst (fst res)) = hs s /\ outs (fst (fst res)) = outs s.
+Proof. exact encrypt_nonce_counter. Qed.
+Print Assumptions C19_encrypt_nonce_counter.
+
+(* counter_nonces_distinct: two encryptions under one session object - the later one with the session
+   returned by the earlier one or any descendant of it (counter not smaller) - carry different nonces,
+   for all messages and whatever the random number generator returns.  Unconditional in the model
+   (counters are unbounded naturals, N has no overflow); for the Rust u32 counter see the next theorem. *)
+Theorem C19_counter_nonces_distinct :
+  forall c s1 s2 na1 na2 se1 se2 m1 m2,
+  s_counter (snd (fst (encrypt_message c s1 na1 se1 m1))) <= s_counter se2 ->
+  pkt_nonce (snd (encrypt_message c s1 na1 se1 m1)) <> pkt_nonce (snd (encrypt_message c s2 na2 se2 m2)).
+Proof. exact counter_nonces_distinct. Qed.
+Print Assumptions C19_counter_nonces_distinct.
+
+Theorem C19_successive_nonces_distinct :
+  forall c s na se m m',
+  let '(s1, se1, p1) := encrypt_message c s na se m in
+  let '(_, _, p2) := encrypt_message c s1 na se1 m' in
+  pkt_nonce p1 <> pkt_nonce p2.
+Proof. exact successive_nonces_distinct. Qed.
+Print Assumptions C19_successive_nonces_distinct.
+
+(* u32 range remark: the four counter bytes on the wire differ as long as the counter stays below 2^32
+   (Rust: `self.counter += 1` on a u32; 2^32 messages under one session are out of reach of the session
+   lifetime; on overflow a debug build panics, a release build would wrap - outside this theorem). *)
+Theorem C19_counter_nonces_distinct_u32 :
+  forall c1 c2 : N, c1 + 1 <= c2 -> c2 + 1 < 2 ^ 32 -> (c1 + 1) mod 2 ^ 32 <> (c2 + 1) mod 2 ^ 32.
+Proof. exact counter_nonces_distinct_u32. Qed.
+Print Assumptions C19_counter_nonces_distinct_u32.
+
+(* rekey_keeps_counter: Session::update inside new_session installs the new keys in the existing session
+   object, remembers the previous ones and keeps the counter; what follows (replay of the active
+   requests, release of queued requests) only increases it. *)
+Theorem C19_rekey_keeps_counter :
+  forall c s na se skip now h1 cs,
+  sess_get (hs s) na = (h1, Some cs) ->
+  exists s1,
+    hs s1 = sess_put h1 na {| s_enc := s_enc se; s_dec := s_dec se; s_old := Some (s_enc cs, s_dec cs);
+                              s_await := s_await se; s_counter := s_counter cs |} /\
+    Quiet s1 (new_session c s na se skip now).
+Proof. exact rekey_keeps_counter. Qed.
+Print Assumptions C19_rekey_keeps_counter.
+
+Theorem C19_new_session_counter :
+  forall c s na se skip now cs se',
+  SessUniq (hs s) ->
+  alist_get na (sessions (hs s)) = Some cs ->
+  In (na, se') (sessions (hs (new_session c s na se skip now))) ->
+  s_counter cs <= s_counter se'.
+Proof. exact new_session_counter. Qed.
+Print Assumptions C19_new_session_counter.
+
+(* counter_monotone: in every step, the counter of the session stored under a node address does not
+   decrease while the entry persists (a session that is removed and later re-created starts at 0 again -
+   with new keys, see C01_step_sessions).  SessUniq (at most one session per node address) holds in
+   every reachable state. *)
+Theorem C19_counter_monotone :
+  forall c h e now d na se se',
+  SessUniq h ->
+  alist_get na (sessions h) = Some se ->
+  alist_get na (sessions (fst (step c h e now d))) = Some se' ->
+  s_counter se <= s_counter se'.
+Proof. exact counter_monotone. Qed.
+Print Assumptions C19_counter_monotone.
+
+Theorem C19_counter_monotone_run :
+  forall c evs h na se se',
+  SessUniq h ->
+  (forall hi, In hi (run_states c h evs) -> alist_get na (sessions hi) <> None) ->
+  alist_get na (sessions h) = Some se ->
+  alist_get na (sessions (fst (run c h evs))) = Some se' ->
+  s_counter se <= s_counter se'.
+Proof. exact counter_monotone_run. Qed.
+Print Assumptions C19_counter_monotone_run.
+
+Theorem C19_session_unique_reachable : forall c evs, SessUniq (fst (run c init_state evs)).
+Proof. exact run_SessUniq. Qed.
+Print Assumptions C19_session_unique_reachable.
+
+(* The id-nonce of a WHOAREYOU is the value the random number generator returned when the challenge was
+   built (send_challenge is the only function of the handler that builds a WHOAREYOU packet).  "The
+   16-byte id-nonces never repeat" is therefore exactly a statement about the oracle: two challenges
+   built from different draws carry different id-nonces; the freshness of the draws is the explicit
+   hypothesis - no model can prove a property of rand. *)
+Theorem C19_idnonce_is_the_draw :
+  forall c s na n known now,
+  let s' := send_challenge c s na n known now in
+  let x := fst (pop_pk (dr s)) in
+  s' = s \/
+  outs s' = outs s ++ [OWire na (PWho n (fst (fst (fst x))) (match known with Some e => e_seq e | None => 0 end)
+                                     (snd (fst x)))].
+Proof. exact send_challenge_idnonce. Qed.
+Print Assumptions C19_idnonce_is_the_draw.
+
+Theorem C19_idnonce_distinct_under_fresh_oracle :
+  forall c s1 s2 na1 na2 n1 n2 k1 k2 now1 now2 dst1 dst2 m1 m2 i1 i2 q1 q2 c1 c2,
+  fst (fst (fst (fst (pop_pk (dr s1))))) <> fst (fst (fst (fst (pop_pk (dr s2))))) ->   (* fresh oracle *)
+  In (OWire dst1 (PWho m1 i1 q1 c1)) (outs (send_challenge c s1 na1 n1 k1 now1)) ->
+  ~ In (OWire dst1 (PWho m1 i1 q1 c1)) (outs s1) ->
+  In (OWire dst2 (PWho m2 i2 q2 c2)) (outs (send_challenge c s2 na2 n2 k2 now2)) ->
+  ~ In (OWire dst2 (PWho m2 i2 q2 c2)) (outs s2) ->
+  i1 <> i2.
+Proof. exact idnonce_distinct_under_fresh_oracle. Qed.
+Print Assumptions C19_idnonce_distinct_under_fresh_oracle.
+
+(* ------------------------------------------------------------------------------------------ *)
+(* example: the session created by the handshake has counter 0; the response is encrypted with nonce
+   (1, r) under the recipient key and the stored counter becomes 1 *)
+Example C19_example_counter :
+  option_map s_counter (alist_get (7, 100) (sessions (fst (run ex_cfg init_state [ev_unknown; ev_whoareyou; ev_handshake])))) = Some 0 /\
+  option_map s_counter (alist_get (7, 100) (sessions h_session)) = Some 1 /\
+  snd (run ex_cfg init_state [ev_unknown; ev_whoareyou; ev_handshake; ev_response]) =
+  [[OEvent (HWhoAreYou (7, 100) (1, 1))]; [OWire (7, 100) (PWho (1, 1) 11 1 5)];
+   [OEvent (HEstablished enr7 100 true); OEvent (HRequest (7, 100) 9 0)];
+   [OWire (7, 100) (PMsg 1 (1, 77) 52 (CEnc (mk_key 3 1 5 7 1 true) (1, 77) (MResp 9 (ROther 1)) 52))]].
+Proof. exact counter_after_response. Qed.
+Print Assumptions C19_example_counter.
